@@ -50,13 +50,11 @@ with_stubs!(le_256, #[kani::unwind(8)] pub fn c09q_slice_list_63() { hostile::<L
 with_stubs!(le_16k, #[kani::unwind(8)] pub fn c09q_slice_vec_wide_2p14() { hostile_vec::<(u64, u64), 4>(1 << 14, false) });
 with_stubs!(le_16k, #[kani::unwind(8)] pub fn c09q_unk_vec_wide_1500() { hostile_vec::<(u64, u64), 4>(1500, true) });
 with_stubs!(le_16k, #[kani::unwind(8)] pub fn c09q_slice_vec_arr_5000() { hostile_vec::<[u32; 4], 5>(5000, false) });
-// maps with wide values and one decodable entry: the claimed count (63) must not be reserved ahead (63 x 264 B > 16 KiB)
-with_stubs!(le_16k, #[kani::unwind(40)] pub fn c09q_map_63_wide_value_one_entry() {
-	let bytes: [u8; 258] = kani::any();
-	let r = BTreeMap::<u8, [u64; 32]>::decode(&mut Pre::count(63, &bytes[..]));
-	assert!(r.is_err());
-	core::mem::forget(r);
-});
+// maps/sets with decodable entries behind a hostile count: nothing may be reserved ahead for the claimed count
+// (63 entries x 2 bytes = 128 B would exceed the 64 B allowance; what is legitimately needed for one or two small
+// entries -- a 4-entry staging vector and one leaf node -- stays below it)
+with_stubs!(le_64, #[kani::unwind(8)] pub fn c09q_map_63_one_entry_tight() { hostile_fixed::<BTreeMap<u8, u8>, 3>(63) });
+with_stubs!(le_64, #[kani::unwind(8)] pub fn c09q_set_63_two_entries_tight() { hostile_fixed::<BTreeSet<u8>, 2>(63) });
 // unknown-length input: still one chunk per nesting level at most
 with_stubs!(le_16k, #[kani::unwind(8)] pub fn c09q_unk_vec_u8_max() { hostile_vec::<u8, 4>(u32::MAX as usize, true) });
 with_stubs!(le_16k, #[kani::unwind(8)] pub fn c09q_unk_vec_u64_usizemax() { hostile_vec::<u64, 9>(usize::MAX / 8, true) });
